@@ -3,6 +3,8 @@ import Sigc.Spec
 import Sigc.Lemmas.Basic
 import Sigc.Lemmas.SpecPDefs
 import Sigc.Lemmas.SpecPEx
+import Sigc.Lemmas.SpecPWFMutual
+import Sigc.Lemmas.SpecPConn
 /-!
 # SpecProps — the specification `S` (`Sigc.Spec`) means what the property statements say
 
@@ -644,6 +646,24 @@ example : ∃ s', Spec.stepSimple exS (.blockC 1 false) = some (s', "1") ∧
   cases h2
   rw [h3]; rfl
 
+/-- a blocked slot stays connected: `block()/unblock()` through a connection or scoped connection changes
+    no `connected()` answer, of this or any other connection -/
+theorem blocking_keeps_connected (s s' : LSt) (r : String) (i : Nat) (b : Bool)
+    (h : Spec.stepSimple s (.blockC i b) = some (s', r) ∨ Spec.stepSimple s (.blockK i b) = some (s', r)) :
+    ∀ p, connConnected s' p = connConnected s p := by
+  intro p
+  rcases h with h | h <;> simp only [Spec.stepSimple] at h <;> split at h <;>
+    simp only [Option.some.injEq, Prod.mk.injEq] at h <;> (obtain ⟨rfl, -⟩ := h) <;> try rfl
+  all_goals
+    split
+    · exact connConnected_updCell_blocked s _ b p
+    · rfl
+
+example : ∀ p, connConnected (((Spec.stepSimple exS (.blockC 0 true)).map (·.1)).getD {}) p = connConnected exS p := by
+  cases h : Spec.stepSimple exS (.blockC 0 true) with
+  | none => exact absurd h (by decide +kernel)
+  | some x => exact blocking_keeps_connected exS x.1 x.2 0 true (Or.inl h)
+
 /-- an empty connection: `block()` does nothing and answers `false` -/
 theorem blockC_empty_connection (s : LSt) (i : Nat) (b : Bool) (hp : aget s.C i = some none) :
     Spec.stepSimple s (.blockC i b) = some (s, "0") := by
@@ -1115,5 +1135,211 @@ theorem gcSig_drops_iff (s : LSt) (i : Nat) (g : LSig) (hg : aget s.sigs i = som
 example : gcSig exS 1 = exS ∧ aget (gcSig { exS with G := [] } 1).sigs 1 = none :=
   ⟨(gcSig_drops_iff exS 1 exSig rfl).2.1 (by decide),
    (gcSig_drops_iff { exS with G := [] } 1 exSig rfl).1.2 (by decide)⟩
+
+/-! ## reachable states: `active` is restored, ids are fresh, lists are well-formed
+
+`WF s` (`Sigc/Lemmas/SpecPWF.lean`): for every list `i ↦ g` of `s`: `i < s.next`, every entry id is below
+`s.next`, the ids are pairwise distinct, without `k2` no entry is a marker or zombie, without `k1` the
+list is not dirty.  `Step s s'`: `s.next ≤ s'.next`, the flags are kept, and if `WF s` then `WF s'`,
+every list has the same `active` in `s'` as in `s` (`actOf`, 0 for an absent list), and every entry id of
+`s'` below `s.next` is an entry id of `s`.  Every function of the mutual block is a `Step`
+(`allStep`, by induction on fuel, over all ~70 operations). -/
+
+/-- `WF`, spelled out -/
+theorem WF_iff (s : LSt) :
+    WF s ↔ ∀ i g, aget s.sigs i = some g →
+      i < s.next ∧ (∀ c ∈ g.cells, c.id < s.next) ∧ (g.cells.map (·.id)).Nodup ∧
+      (s.k2 = false → ∀ c ∈ g.cells, c.marker = false ∧ c.zombie = false) ∧ (s.k1 = false → g.dirty = false) := by
+  constructor
+  · intro h i g hg
+    obtain ⟨h1, h2⟩ := h i g hg
+    exact ⟨h1, h2.lt, h2.nodup, h2.pure, h2.clean⟩
+  · intro h i g hg
+    obtain ⟨h1, h2, h3, h4, h5⟩ := h i g hg
+    exact ⟨h1, h2, h3, h4, h5⟩
+
+/-- C03: after `emitSig` returns — normally or with an exception, whatever the functors did, however
+    deeply they re-emitted — every list has as many emissions in progress as before (in particular the
+    emitted one); the state is well-formed again and `next` has not decreased -/
+theorem emitSig_restores_active (f : Nat) (P : Prog) (s s' : LSt) (fl : Flavour) (impl : Option Nat) (arg : Nat)
+    (strat : Strat) (o : Outcome) (v : Nat) (hw : WF s) (h : emitSig f P s fl impl arg strat = some (s', o, v)) :
+    (∀ i, actOf s' i = actOf s i) ∧ WF s' ∧ s.next ≤ s'.next := by
+  obtain ⟨hn, _, _, hr⟩ := (allStep f).emitSig P s fl impl arg strat s' o v h
+  exact ⟨(hr hw).2.1, (hr hw).1, hn⟩
+
+example : actOf (((emitSig 10 exP exS2 .I (some 1) 5 .sum).map (·.1)).getD {}) 1 = 0 := by decide +kernel
+
+example : ∀ s' o v, emitSig 10 exP exS2 .I (some 1) 5 .sum = some (s', o, v) → ∀ i, actOf s' i = actOf exS2 i :=
+  fun s' o v h => (emitSig_restores_active 10 exP exS2 s' .I (some 1) 5 .sum o v exS2_WF h).1
+
+/-- the same for a functor invocation, an operation and a line: user code leaves `active` of every list
+    as it found it -/
+theorem user_code_restores_active (f : Nat) (P : Prog) (s : LSt) (hw : WF s) :
+    (∀ fn arg s' o v, Spec.invokeFun f P s fn arg = some (s', o, v) →
+       (∀ i, actOf s' i = actOf s i) ∧ WF s' ∧ s.next ≤ s'.next) ∧
+    (∀ op s' e, Spec.execOp f P s op = some (s', e) → (∀ i, actOf s' i = actOf s i) ∧ WF s' ∧ s.next ≤ s'.next) ∧
+    (∀ l s' o, Spec.execLine f P s l = some (s', o) → (∀ i, actOf s' i = actOf s i) ∧ WF s' ∧ s.next ≤ s'.next) := by
+  refine ⟨fun fn arg s' o v h => ?_, fun op s' e h => ?_, fun l s' o h => ?_⟩
+  · obtain ⟨hn, _, _, hr⟩ := (allStep f).invokeFun P s fn arg s' o v h
+    exact ⟨(hr hw).2.1, (hr hw).1, hn⟩
+  · obtain ⟨hn, _, _, hr⟩ := (allStep f).execOp P s op s' e h
+    exact ⟨(hr hw).2.1, (hr hw).1, hn⟩
+  · obtain ⟨hn, _, _, hr⟩ := (allStep f).execLine P s l s' o h
+    exact ⟨(hr hw).2.1, (hr hw).1, hn⟩
+
+example : ∀ s' e, Spec.execOp 12 exP exS (.emit 0 5 .sum false) = some (s', e) → WF s' ∧ exS.next ≤ s'.next :=
+  fun s' e h => ((user_code_restores_active 12 exP exS exS_WF).2.1 _ s' e h).2
+
+/-- during the turns of an emission the emitted list stays alive with `active` one above its value at
+    the start: the turns themselves (and everything they call) keep `active` of every list -/
+theorem turns_keep_active (f : Nat) (P : Prog) (s s' : LSt) (i : Nat) (snap : List Nat) (arg r : Nat) (o : Outcome) (v : Nat)
+    (hw : WF s) (h : turns f P s i snap arg r = some (s', o, v)) : ∀ j, actOf s' j = actOf s j := by
+  obtain ⟨_, _, _, hr⟩ := (allStep f).turns P s i snap arg r s' o v h
+  exact (hr hw).2.1
+
+/-- every state reached by a top-level run — of any program, from the empty state, with any flags — is
+    well-formed, and *quiescent*: no emission is in progress in any list (so `size()`, `empty()`,
+    `blocked()` are never answered `*` at top level) -/
+theorem run_WF (f : Nat) (P : Prog) (k1 k2 : Bool) (ls : List Line) (s : LSt)
+    (h : Spec.runTop f P { k1 := k1, k2 := k2 } ls = some s) :
+    WF s ∧ (∀ i g, aget s.sigs i = some g → g.active = 0) ∧ s.k1 = k1 ∧ s.k2 = k2 := by
+  obtain ⟨_, h1, h2, hr⟩ := step_runTop f P ls _ s h
+  obtain ⟨hw, ha, _⟩ := hr (WF_init k1 k2)
+  refine ⟨hw, ?_, h1, h2⟩
+  intro i g hg
+  have := ha i
+  simpa [actOf, actL, hg, aget] using this
+
+/-- the program "g0 := signal<int(int)>; connect f3 (which connects f1 when invoked); emit; emit" -/
+example : ∀ s, Spec.runTop 30 exP {}
+      [{ text := "newG 0 I", op := .newG 0 (some .I) }, { text := "connfn 1 0 fn:3", op := .connfn 1 0 (.fn 3) false },
+       { text := "emit 0 5", op := .emit 0 5 .sum false }, { text := "emit 0 6", op := .emit 0 6 .sum false }] = some s →
+    WF s ∧ ∀ i g, aget s.sigs i = some g → g.active = 0 :=
+  fun s h => ⟨(run_WF 30 exP false false _ s h).1, (run_WF 30 exP false false _ s h).2.1⟩
+
+/-- so at every top-level point of every run `size()` is the number of entries of the list -/
+theorem size_at_top_level (f : Nat) (P : Prog) (k1 k2 : Bool) (ls : List Line) (s : LSt) (g im : Nat) (h : Handle) (x : LSig)
+    (hrun : Spec.runTop f P { k1 := k1, k2 := k2 } ls = some s)
+    (hg : aget s.G g = some h) (hi : h.impl = some im) (hx : aget s.sigs im = some x) :
+    Spec.stepSimple s (.sizeq g) = some (s, toString x.cells.length) ∧
+    Spec.stepSimple s (.emptyGq g) = some (s, bstr x.cells.isEmpty) ∧
+    Spec.stepSimple s (.blockedGq g) = some (s, bstr (x.cells.all (·.slot.blocked))) := by
+  have hq := (run_WF f P k1 k2 ls s hrun).2.1 im x hx
+  exact ⟨(size_is_length s g im h x hg hi hx hq).1, (size_is_length s g im h x hg hi hx hq).2.1,
+    (blockedGq_is_all_blocked s g im h x hg hi hx hq).1⟩
+
+/-- the snapshot of a well-formed list has no duplicates, so a non-accumulated emission invokes no entry twice -/
+theorem no_entry_invoked_twice (f : Nat) (P : Prog) (s0 s : LSt) (fl : Flavour) (i : Nat) (g : LSig) (arg r : Nat)
+    (x : LSt × Outcome × Nat) (l : List Inv) (hw : WF s0) (hg : aget s0.sigs i = some g)
+    (h : turnsT f P s i (snapOf s0.k2 fl g) arg r = some (x, l)) : (l.map (·.cid)).Nodup := by
+  have hn : (snapOf s0.k2 fl g).Nodup := nodup_map_filter _ _ _ (hw i g hg).2.nodup
+  exact (invoked_in_snapshot_order_once f P s i _ arg r x l h).2.2 hn
+
+example : ∀ x l, turnsT 10 exP (enter exS 1 exSig) 1 (snapOf exS.k2 .I exSig) 5 0 = some (x, l) → (l.map (·.cid)).Nodup :=
+  fun x l h => no_entry_invoked_twice 10 exP exS _ .I 1 exSig 5 0 x l exS_WF rfl h
+
+/-- an entry connected while an emission runs is not in that emission's snapshot — for every well-formed
+    start state and every state `s1` the body can be in (`next` never decreases) -/
+theorem connected_during_emission_not_in_snapshot_wf (s s1 : LSt) (fl : Flavour) (i : Nat) (g : LSig) (j : Nat)
+    (first : Bool) (sl : SlotB) (hw : WF s) (hg : aget s.sigs i = some g) (hstep : Step (enter s i g) s1) :
+    (insertCell s1 j first sl).2 ∉ snapOf s.k2 fl g :=
+  connected_during_emission_not_in_snapshot s s1 fl g j first sl (hw i g hg).2.lt
+    (Nat.le_trans (Nat.le_succ _) hstep.1)
+
+example : ∀ s1 o v fn, Spec.invokeFun 9 exP (enter exS 1 exSig) fn 5 = some (s1, o, v) →
+    (insertCell s1 1 false (exSlot 9)).2 ∉ snapOf exS.k2 .I exSig :=
+  fun s1 o v fn h => connected_during_emission_not_in_snapshot_wf exS s1 .I 1 exSig 1 false _ exS_WF rfl
+    ((allStep 9).invokeFun exP _ fn 5 s1 o v h)
+
+/-- C03, the specification proper (`k1 = k2 = false`): when an emission of a well-formed state returns,
+    the emitted list is exactly as its body left it — the entries connected during it are there, the
+    entries disconnected during it are not — with `active` back to its value at the start -/
+theorem emission_leaves_list_as_body_left_it (f : Nat) (P : Prog) (s s' : LSt) (fl : Flavour) (i arg : Nat)
+    (strat : Strat) (g : LSig) (o : Outcome) (v : Nat) (hw : WF s) (hk1 : s.k1 = false) (hk2 : s.k2 = false)
+    (hg : aget s.sigs i = some g) (h : emitSig (f+1) P s fl (some i) arg strat = some (s', o, v)) :
+    ∃ s2 g2, body f P (enter s i g) fl i (snapOf s.k2 fl g) arg strat = some (s2, o, v) ∧
+      aget s2.sigs i = some g2 ∧ g2.active = g.active + 1 ∧
+      s' = Spec.collect (gcSig (setSig s2 i (closeSig s.next g2)) i) ∧
+      (closeSig s.next g2).cells = g2.cells ∧ (closeSig s.next g2).active = g.active := by
+  obtain ⟨s2, hb, hs⟩ := emitSig_epilogue_same f P s s' fl i arg strat g o v hg (by simp [hk2]) h
+  obtain ⟨_, e1, e2, hr⟩ := step_body f (allStep f) P _ fl i _ arg strat s2 o v hb
+  obtain ⟨hw2, ha, hi⟩ := hr (WF_enter s i g hw hg)
+  have hact := ha i
+  rw [actOf_enter s i i g hg] at hact
+  simp only [if_true] at hact
+  cases hg2 : aget s2.sigs i with
+  | none => simp [actOf, actL, hg2] at hact
+  | some g2 =>
+    have hact2 : g2.active = g.active + 1 := by simpa [actOf, actL, hg2] using hact
+    have hk1' : s2.k1 = false := by rw [e1]; exact hk1
+    have hk2' : s2.k2 = false := by rw [e2]; exact hk2
+    have hwg := (hw2 i g2 hg2).2
+    refine ⟨s2, g2, hb, hg2, hact2, ?_, ?_, ?_⟩
+    · rw [hs, epi_eq i s.next s2 g2 hg2]
+    · refine closeSig_cells s.next g2 (fun c hc => (hwg.pure hk2' c hc).2) (hwg.clean hk1') ?_
+      intro c hc he
+      have h1 : idsL (enter s i g).sigs s.next := hi s.next (Nat.lt_succ_self _) ⟨i, g2, c, hg2, hc, he⟩
+      obtain ⟨j, x, c0, hx, hc0, he0⟩ := ids_enter_pure s i g hg hk2 _ h1
+      have := (hw j x hx).2.lt c0 hc0
+      omega
+    · rw [closeSig_active, hact2]; rfl
+
+example : ((emitSig 10 exP exS2 .I (some 1) 5 .sum).map
+    (fun x => (aget x.1.sigs 1).map (fun g => (g.active, g.cells.map (·.id))))) = some (some (0, [2, 4, 6, 21])) := by
+  decide +kernel
+
+/-- C01: in a well-formed state the id `insertCell` hands out is fresh — no entry of any list has it -/
+theorem insertCell_id_fresh_wf (s : LSt) (i : Nat) (first : Bool) (sl : SlotB) (hw : WF s) :
+    ∀ j g, aget s.sigs j = some g → ∀ c ∈ g.cells, c.id ≠ (insertCell s i first sl).2 :=
+  fun j g hg => insertCell_id_fresh s i first sl g (hw j g hg).2.lt
+
+example : ∀ c ∈ exSig.cells, c.id ≠ (insertCell exS 1 true (exSlot 9)).2 :=
+  insertCell_id_fresh_wf exS 1 true _ exS_WF 1 exSig rfl
+
+/-- C14: destroying the last signal object that refers to a list (no emission of it running) destroys
+    the list; while another signal object refers to it, the list stays, with the same entries -/
+theorem delG_last_handle_drops_list (s : LSt) (g im : Nat) (h : Handle) (x : LSig)
+    (hg : aget s.G g = some h) (hi : h.impl = some im) (hx : aget s.sigs im = some x)
+    (hpin : (h.everFwd && !h.fl.isTrackable) = false) :
+    ∃ s', Spec.stepSimple s (.delG g) = some (s', "ok") ∧ aget s'.G g = none ∧
+      ((x.active = 0 ∧ ∀ p ∈ s.G, p.1 ≠ g → p.2.impl ≠ some im) → aget s'.sigs im = none) ∧
+      ((∃ p ∈ s.G, p.1 ≠ g ∧ p.2.impl = some im) → h.fl.isTrackable = false → aget s'.sigs im = some x) := by
+  cases ht : h.fl.isTrackable
+  · rw [ht] at hpin
+    have hs : Spec.stepSimple s (.delG g) = some (gcSig { s with G := adel s.G g } im, "ok") := by
+      simp only [Spec.stepSimple, hg, hpin, hi, ht, Bool.false_eq_true, if_false]
+    have hx2 : aget ({ s with G := adel s.G g } : LSt).sigs im = some x := hx
+    refine ⟨_, hs, ?_, ?_, ?_⟩
+    · rw [gcSig_G]; exact aget_adel_same _ _
+    · rintro ⟨ha, hno⟩
+      refine (gcSig_drops_iff _ im x hx2).1.2 ⟨ha, ?_⟩
+      intro p hp
+      simp only [adel, List.mem_filter, decide_eq_true_eq] at hp
+      exact hno p hp.1 hp.2
+    · rintro ⟨p, hp, hne, himp⟩ _
+      rw [(gcSig_drops_iff _ im x hx2).2.1]
+      · exact hx
+      · rintro ⟨_, hno⟩
+        exact hno p (by simp only [adel, List.mem_filter, decide_eq_true_eq]; exact ⟨hp, hne⟩) himp
+  · rw [ht] at hpin
+    have hs : Spec.stepSimple s (.delG g) =
+        some (gcSig { (invalidateTrackable s h.trk) with G := adel (invalidateTrackable s h.trk).G g } im, "ok") := by
+      simp only [Spec.stepSimple, hg, hpin, hi, ht, Bool.false_eq_true, if_false, if_true]
+    have hx2 : aget ({ (invalidateTrackable s h.trk) with G := adel (invalidateTrackable s h.trk).G g } : LSt).sigs im =
+        some (x.remove s.k1 s.k2 true (fun c => c.slot.tracksObj h.trk)) := by
+      simp only [invalidateTrackable, aget_amap, hx, Option.map_some]
+    refine ⟨_, hs, ?_, ?_, ?_⟩
+    · rw [gcSig_G]; exact aget_adel_same _ _
+    · rintro ⟨ha, hno⟩
+      refine (gcSig_drops_iff _ im _ hx2).1.2 ⟨ha, ?_⟩
+      intro p hp
+      simp only [invalidateTrackable_G, adel, List.mem_filter, decide_eq_true_eq] at hp
+      exact hno p hp.1 hp.2
+    · intro _ hc; cases hc
+
+/-- `exS`: signal objects 0 and 1 share list 1 — deleting 0 keeps the list, deleting both drops it -/
+example : ((Spec.stepSimple exS (.delG 0)).map (fun x => (aget x.1.sigs 1).map (·.cells.length))) = some (some 3) ∧
+    (((Spec.stepSimple exS (.delG 0)).bind (fun x => Spec.stepSimple x.1 (.delG 1))).map
+      (fun x => (aget x.1.sigs 1).map (·.cells.length))) = some none := by decide +kernel
 
 end Sigc.SpecP
